@@ -1,7 +1,10 @@
 mod id_gen;
 mod toposort;
 
+#[cfg(not(prqlc_verif))]
 use std::{io::stderr, sync::OnceLock};
+#[cfg(prqlc_verif)]
+use {crate::verif_sync::OnceLock, std::io::stderr};
 
 use anstream::adapter::strip_str;
 pub use id_gen::{IdGenerator, NameGenerator};
